@@ -123,6 +123,21 @@ impl PropCase for Total {
             format!("the iteration ends after at most |x|+1 = {} items (events and errors)", x.len() + 1),
             format!("{} items and still going", st.0)
         );
+        // ---- the streaming parser drained through `collect` (which consults `size_hint`): what the collection
+        // requests is bounded by the input length as well, never by a declared length. `Capped` forwards the
+        // parser's own size_hint unchanged and only guards the monitor against an iteration that does not end.
+        let cap_items = x.len() + 2;
+        let (n3, w3) = window(|| {
+            let v: Vec<_> = Capped { inner: streaming::Parser::new(x), left: cap_items }.collect();
+            v.len()
+        });
+        ensure!(
+            w3.bytes <= bound,
+            "collect-heap-bounded-by-input",
+            format!("heap requested by streaming::Parser::new(x).collect::<Vec<_>>() <= {} * |x| + {} = {} bytes for an input of {} bytes", PER_BYTE, SLACK, bound, x.len()),
+            format!("{} bytes requested in {} calls, largest single request {} bytes ({} items collected); input {}", w3.bytes, w3.calls, w3.max_single, n3, hex_short(x))
+        );
+        ctx.maxi("max_heap_bytes_streaming_collect", w3.bytes);
         // observed classes
         let oc = match &res {
             Ok(_) => "ok".to_string(),
@@ -141,6 +156,26 @@ impl PropCase for Total {
             ctx.sample(self.family, || format!("|x|={} {} -> complete {} with {} heap bytes in {} requests; streaming {} items, 0 requests", x.len(), hex_short(x), oc, w.bytes, w.calls, st.0));
         }
         Ok(())
+    }
+}
+
+/// passes `size_hint` of the wrapped iterator through untouched; ends after `left` items
+struct Capped<I> {
+    inner: I,
+    left: usize,
+}
+
+impl<I: Iterator> Iterator for Capped<I> {
+    type Item = I::Item;
+    fn next(&mut self) -> Option<I::Item> {
+        if self.left == 0 {
+            return None;
+        }
+        self.left -= 1;
+        self.inner.next()
+    }
+    fn size_hint(&self) -> (usize, Option<usize>) {
+        self.inner.size_hint()
     }
 }
 
